@@ -1,32 +1,62 @@
-"""C11 - mailbox namespace commands behave as the RFC 3501 reference model.
+"""C11 - mailbox namespace commands behave as the RFC 3501 reference model,
+on the dict backend and on the maildir backend in both layouts.
 
 Oracle: spec/Namespace.tla.  Names and patterns are token sequences, `MatchX`
 is the recursive RFC 3501 wildcard matcher, every command has a SET of allowed
 outcomes (RFC latitude = several outcomes, each tagged), and every named
-deviation of the tree under test is an extra outcome carrying r.dev.
+deviation of the tree under test is an extra outcome carrying r.dev.  The
+variable `store` ("dict", "pp" = maildir '++', "fs" = maildir 'fs'; chosen in
+Init from the Stores of the configuration) says which backend a behaviour is
+about.  The allowed outcomes are the same for every store, except that CREATE /
+RENAME to a name the store cannot hold may answer NO (Unstorable: the token
+"u", bound per store by UNSTORABLE_PART; an empty name part under 'fs';
+SUBSCRIBE of a name with a line break on maildir); the store only selects, in
+NextAsIs, the allowed outcome the backend is believed to produce ('fs' makes
+missing superiors and answers NO [HASCHILDREN] to DELETE of a mailbox with
+inferiors, ...) and scopes the deviations (DevFor).
 
 1. TLC checks the model's own sanity on every allowed outcome
-   (Namespace_rfc.cfg: INBOX protected, a failing command changes nothing,
+   (Namespace_rfc.cfg, and Namespace_oddrfc.cfg for the maildir stores with
+   unstorable names: INBOX protected, a failing command changes nothing,
    RENAME preserves the mailboxes it moves, the effects bookkeeping is exact).
 2. spec -> code.  `NextAsIs` is the deterministic selection, from the allowed
-   outcomes, of what pymap is believed to do (Dev = the OPEN entries of
-   known/C11.json).  TLC dumps its state graph for several small
-   configurations (hierarchy, INBOX, trailing / leading delimiter); an edge
-   cover is run on fresh real servers.  After EVERY command the tagged result
+   outcomes, of what pymap is believed to do (AllOpen = the OPEN entries of
+   known/C11.json, each applied to its stores only).  TLC dumps its state
+   graph for several small configurations (hierarchy, INBOX, trailing /
+   leading delimiter, names a store cannot hold), one run per configuration
+   for all stores; an edge cover is run on fresh real servers - World('dict')
+   or World('maildir', layout=...) on a scratch directory of its own, removed
+   when the execution ends.  After EVERY command the tagged result
    and data are compared with `last`, and LIST "" * / LSUB "" * / STATUS of
-   every name with `probe` / `mbx`; the real mailbox objects (UIDVALIDITY,
-   UIDNEXT, UIDs, bodies) are followed through r.moved / r.fresh / r.gone /
-   r.app.  `-simulate` behaviours (VERIF_SEED) of a bigger universe are the
-   longer programs; the matcher configuration enumerates <name set,
-   reference, pattern>.  Every abstract name is sent in several
+   every name with `probe` / `mbx`; the real mailboxes (UIDVALIDITY,
+   UIDNEXT, UIDs, bodies - as STATUS, SELECT + UID FETCH 1:* (UID BODY.PEEK[])
+   and APPENDUID report them, on every backend) are followed through r.moved /
+   r.fresh / r.gone / r.app.  The probes of every second execution go through
+   a second connection of the same user (maildir: a MailboxSet of its own over
+   the same directory).  `-simulate` behaviours (VERIF_SEED) of a bigger
+   universe are the longer programs; the matcher configuration enumerates
+   <name set, reference, pattern>.  Every abstract name is sent in several
    concretisations (CONCS) and wire forms (atom / quoted / literal+,
    modified UTF-7 written and read by this module, not by pymap).
+   A deviation may end the connection ("* BYE", no tagged answer: r.bye): the
+   driver notes it and goes on with a new connection of the same user.
+   Maildir in the quick tier: a slice (every MD_SLICE-th path of the big
+   tours and small name set of the matcher, rotating with VERIF_SEED, half the
+   simulated behaviours); thorough: everything dict gets.  The executions are
+   forked into workers after all TLC work of the prediction is done.
 3. code -> spec.  An execution that differs from the prediction is judged by
-   TLC (Trace_Namespace.tla) against ALL allowed outcomes and all deviations:
-   accepted = drift (exit 0), rejected = VIOLATION.  A sample of the matching
-   executions is judged as well so that the judge runs on every invocation.
-The deviations an accepted execution needs are its known-finding signatures.
-A backend parameter (maildir, both layouts) is carried by Driver / Execution.
+   TLC (Trace_Namespace.tla) against ALL allowed outcomes and all deviations
+   known for its store: accepted = drift (exit 0), rejected = VIOLATION.  A
+   sample of the matching executions is judged as well so that the judge runs
+   on every invocation.  (Expected drift on the unchanged tree: maildir '++'
+   renames the directories of a mailbox and its inferiors one by one in
+   directory order - which of them were renamed when RENAME onto an existing
+   name fails cannot be predicted, MaildirRenameOntoExisting allows any.)
+The deviations an accepted execution needs are its known-finding signatures;
+one excuses only on the stores it is a finding of (Maildir*: maildir,
+MaildirFs*: the 'fs' layout).  Namespace_lead.cfg (initial states with a
+leading delimiter) is not run on 'fs', which cannot hold such a name;
+Namespace_odd.cfg asks for one with CREATE there.
 """
 
 from __future__ import annotations
@@ -39,7 +69,6 @@ import os
 import random
 import re
 import shutil
-import threading
 import time
 
 from ..common import Run
@@ -506,7 +535,7 @@ class Execution:
     # -- running ---------------------------------------------------------------
 
     def _event(self, cmd, o, hp, pl=None, ps=None, st=None):
-        ev = {'op': cmd[0], 'a': jname(cmd[1]),
+        ev = {'be': self.store, 'op': cmd[0], 'a': jname(cmd[1]),
               'b': jname(cmd[2]) if len(cmd) > 2 else [],
               'ok': bool(o['ok']), 'bad': bool(o['bad']), 'bye': bool(o.get('bye')),
               'n': int(o.get('n', 0)),
@@ -705,7 +734,8 @@ def paths_of_graph(graph, max_len: int, rng=None):
         steps = [_state_step(graph.nodes[dst]) for _lab, dst in path
                  if graph.nodes[dst]['last']['cmd'] != ('none',)]
         if steps:
-            out.append(({'mbx': dict(st0['mbx']), 'sub': set(st0['sub'])}, steps))
+            out.append(({'mbx': dict(st0['mbx']), 'sub': set(st0['sub']),
+                         'store': str(st0['store'])}, steps))
     return out
 
 
@@ -729,7 +759,8 @@ def simulate(cfg: str, num: int, depth: int, seed: int):
                 st0 = states[0]
                 steps = [_state_step(s) for s in states[1:]
                          if s['last']['cmd'] != ('none',)]
-                behs.append(({'mbx': dict(st0['mbx']), 'sub': set(st0['sub'])}, steps))
+                behs.append(({'mbx': dict(st0['mbx']), 'sub': set(st0['sub']),
+                              'store': str(st0['store'])}, steps))
     finally:
         shutil.rmtree(d, ignore_errors=True)
     return behs, res
@@ -747,19 +778,16 @@ def has_newline(init, steps) -> bool:
 # the judge
 
 
-def judge(execs: list, store: str = 'dict') -> dict:
-    """TLC validates the recorded executions (all of one store) against every
-    allowed outcome and every deviation known for that store.
+def judge(execs: list) -> dict:
+    """TLC validates the recorded executions against every allowed outcome and
+    every deviation known for the store of the execution.
     -> {index: (reached, length, used | None)}"""
     if not execs:
         return {}
-    scratch = tlc._scratch('c11judge')
-    try:
-        cfg = cfg_with_dev('Trace_Namespace.cfg', devs_for(store), scratch, store)
-        verd = tlc.validate_traces('Trace_Namespace.tla', cfg,
-                                   [e.events for e in execs])
-    finally:
-        shutil.rmtree(scratch, ignore_errors=True)
+    if any(not e.events for e in execs):
+        raise tlc.TLCError('an execution without events cannot be judged')
+    verd = tlc.validate_traces('Trace_Namespace.tla', 'Trace_Namespace.cfg',
+                               [e.events for e in execs])
     res = verd.pop('_res')
     if len(verd) != len(execs):
         raise tlc.TLCError('trace validation incomplete: '
@@ -778,6 +806,14 @@ def judge(execs: list, store: str = 'dict') -> dict:
 
 # --------------------------------------------------------------------------
 # running a plan on all cores (fork: the plan is inherited, results are small)
+
+_JOBS: dict = {}
+
+
+def _run_job(key):
+    kind, args = _JOBS[key]
+    return _tlc_job(kind, args)
+
 
 _PLAN: list = []
 _KEEP: set = set()
@@ -811,6 +847,40 @@ def run_plan(plan: list, keep: set, seed: int) -> None:
             plan[idx].merge(res)
 
 
+def _tlc_job(kind: str, args: tuple):
+    """One TLC run and the reading of what it wrote, in a process of its own
+    (reading a dumped graph is Python work: threads would take turns)."""
+    if kind == 'tlc':
+        cfg, workers = args
+        res = tlc.run_tlc(SPEC, cfg, workers=workers)
+        res.output = res.output[-3000:]
+        return res
+    if kind == 'sim':
+        behs, res = simulate(*args)
+        res.output = res.output[-3000:]
+        return behs, res
+    cfg, max_len, workers, timeout, keep = args
+    graph, gres = tlc.dump_graph(SPEC, cfg, workers=workers, timeout=timeout)
+    gres.output = gres.output[-3000:]
+    stats = {'nodes': len(graph.nodes), 'edges': graph.n_edges}
+    if not gres.ok:
+        return {}, stats, gres
+    paths = paths_of_graph(graph, max_len)
+    stats['paths'] = len(paths)
+    stats['commands'] = sum(len(st) for _, st in paths)
+    # per store, numbered; `keep` (store, index, number of paths of the store, initial state)
+    # says which are run at all
+    by: dict = {}
+    for init, steps in paths:
+        by.setdefault(init['store'], []).append((init, steps))
+    out = {}
+    for st, lst in by.items():
+        stats['paths@' + st] = len(lst)
+        out[st] = [(k, init, steps) for k, (init, steps) in enumerate(lst)
+                   if keep(st, k, len(lst), init)]
+    return out, stats, gres
+
+
 TOURS = {
     'quick': [('Namespace_hierq.cfg', 120), ('Namespace_inboxq.cfg', 120),
               ('Namespace_trail.cfg', 120), ('Namespace_lead.cfg', 60)],
@@ -822,6 +892,9 @@ SIM = {'quick': (40, 60), 'thorough': (600, 120)}     # behaviours, depth
 JUDGE_MAX = 20000
 # names a store may be unable to hold: run on the maildir stores
 ODD = [('Namespace_odd.cfg', 60)]
+# configurations whose graph is dumped by a run for dict and a run for maildir
+SPLIT = {'Namespace_hierq.cfg', 'Namespace_hier.cfg', 'Namespace_inboxq.cfg',
+         'Namespace_inbox.cfg', 'Namespace_matchq.cfg', 'Namespace_match.cfg'}
 # quick tier, maildir: every MD_SLICE-th path of the big tours / small name set of the matcher
 MD_SLICE = 3
 
@@ -830,39 +903,51 @@ _DEVSETS: dict = {}
 
 
 def devs_for(store: str) -> set:
-    """The deviations Namespace.tla knows that can apply to `store` (read from
-    the module: AllDev are those found on dict, MaildirDev those of maildir).
-    The maildir backend shares the session layer and ListTree with dict, not
-    the mailbox set: the two dict-only ones do not apply to it."""
+    """DevFor(store) of Namespace.tla, read from the module: the deviations
+    that can apply to the store (a known finding excuses only there)."""
     if not _DEVSETS:
         text = open(os.path.join(tlc.SPEC_DIR, SPEC)).read()
-        for name in ('AllDev', 'MaildirDev'):
+        for name in ('AllDev', 'MaildirDev', 'FsOnlyDev', 'DictOnlyDev'):
             m = re.search(r'^%s == \{([^}]*)\}' % name, text, re.M)
             if not m:
                 raise tlc.TLCError(f'{SPEC}: no definition of {name}')
             _DEVSETS[name] = set(re.findall(r'"([^"]+)"', m.group(1)))
     if store == 'dict':
         return set(_DEVSETS['AllDev'])
-    shared = _DEVSETS['AllDev'] - {'LsubOmitsMissingSubscribed', 'RenameInboxMovesInferiors'}
-    return shared | {d for d in _DEVSETS['MaildirDev']
-                     if store == 'fs' or not d.startswith('MaildirFs')}
+    return (_DEVSETS['AllDev'] - _DEVSETS['DictOnlyDev']) | \
+        (_DEVSETS['MaildirDev'] - (set() if store == 'fs' else _DEVSETS['FsOnlyDev']))
 
 
-def cfg_with_dev(cfg: str, devs, scratch: str, store: str = 'dict') -> str:
-    """The AsIs configurations follow the tree as it is believed to be: Dev =
-    the OPEN known findings (a fixed one must no longer be predicted) that
-    apply to the store; the judge's: all that apply to the store."""
+def cfg_with_dev(cfg: str, devs, scratch: str, stores=None) -> str:
+    """The AsIs configurations follow the tree as it is believed to be: AllOpen
+    = the OPEN known findings (a fixed one must no longer be predicted; the
+    model applies each to its stores only).  stores: replaces the Stores of
+    the configuration."""
     text = open(os.path.join(tlc.SPEC_DIR, cfg)).read()
-    line = 'Dev = {' + ', '.join('"%s"' % d for d in sorted(devs)) + '}'
-    text, n = re.subn(r'^\s*Dev <- AllDev\s*$', '  ' + line, text, flags=re.M)
-    text, k = re.subn(r'^\s*Store = "dict"\s*$', '  Store = "%s"' % store, text, flags=re.M)
-    if n != 1 or k != 1:
-        raise tlc.TLCError(f'{cfg}: no "Dev <- AllDev" / "Store = "dict"" line')
-    os.makedirs(os.path.join(scratch, store), exist_ok=True)
-    path = os.path.join(scratch, store, cfg)
+    line = 'AllOpen = {' + ', '.join('"%s"' % d for d in sorted(devs)) + '}'
+    text, n = re.subn(r'^\s*AllOpen <- AllKnown\s*$', '  ' + line, text, flags=re.M)
+    if n != 1:
+        raise tlc.TLCError(f'{cfg}: no "AllOpen <- AllKnown" line')
+    sub = ''
+    if stores is not None:
+        line = 'Stores = {' + ', '.join('"%s"' % d for d in stores) + '}'
+        text, n = re.subn(r'^\s*Stores = \{[^}]*\}\s*$', '  ' + line, text, flags=re.M)
+        if n != 1:
+            raise tlc.TLCError(f'{cfg}: no "Stores = {{...}}" line')
+        sub = '+'.join(stores)
+    os.makedirs(os.path.join(scratch, sub), exist_ok=True)
+    path = os.path.join(scratch, sub, cfg)
     with open(path, 'w') as f:
         f.write(text)
     return path
+
+
+def cfg_stores(cfg: str) -> list:
+    text = open(os.path.join(tlc.SPEC_DIR, cfg)).read()
+    m = re.search(r'^\s*Stores = \{([^}]*)\}\s*$', text, re.M)
+    if not m:
+        raise tlc.TLCError(f'{cfg}: no "Stores = {{...}}" line')
+    return re.findall(r'"([^"]+)"', m.group(1))
 
 
 def _describe(e: Execution, k: int) -> str:
@@ -898,47 +983,67 @@ def main(tier: str) -> int:
 
     # ---- 1. TLC -------------------------------------------------------------
     results: dict = {}
-
-    def bg(key, fn, *a, **kw):
-        def go():
-            try:
-                results[key] = fn(*a, **kw)
-            except Exception as exc:      # machinery
-                results[key] = exc
-        t = threading.Thread(target=go)
-        t.start()
-        return t
-
-    def tours_of(store):
-        # a leading delimiter is an empty first part: no name of the filesystem layout
-        # (Namespace_odd.cfg asks for one with CREATE); the dict backend holds every name
-        return [(c, n) for c, n in TOURS[tier] + ODD
-                if not (store == 'fs' and c == 'Namespace_lead.cfg')
-                and not (store == 'dict' and (c, n) in ODD)]
-
     quick_md = tier == 'quick'
+    md_stores = [st for st in stores if st != 'dict']
+    tours = TOURS[tier] + (ODD if md_stores else [])
+    nmatch = 'match:' + MATCH[tier]
+    offs = {st: run.seed + k for k, st in enumerate(stores)}
+
+    def keep_tour(st, k, n, init):
+        # maildir, quick tier: every MD_SLICE-th path of the big tours
+        return st in stores and not (st != 'dict' and quick_md and n > 30
+                                     and (k + offs[st]) % MD_SLICE)
+
+    def keep_match(st, k, n, init):
+        # maildir, quick tier: the big name sets, every MD_SLICE-th of the small ones
+        return st in stores and not (st != 'dict' and quick_md and len(init['mbx']) <= 8
+                                     and (k + offs[st]) % MD_SLICE)
+
     scratch = tlc._scratch('c11cfg')
     try:
-        devs = {st: set(run.known.open) & devs_for(st) for st in stores}
-        run.notes['deviations_modelled'] = {st: sorted(devs[st]) for st in stores}
-        threads = [bg('rfc', tlc.run_tlc, SPEC, 'Namespace_rfc.cfg', workers=8)]
-        for st in stores:
-            md = st != 'dict'
-            for cfg, _ in tours_of(st):
-                threads.append(bg((st, cfg), tlc.dump_graph, SPEC,
-                                  cfg_with_dev(cfg, devs[st], scratch, st),
-                                  workers=2 if md else 4))
-            threads.append(bg((st, MATCH[tier]), tlc.dump_graph, SPEC,
-                              cfg_with_dev(MATCH[tier], devs[st], scratch, st),
-                              workers=4 if md else 8, timeout=3000))
-            nsim, depth = SIM[tier]
-            if md and quick_md:
-                nsim = nsim // 2
-            threads.append(bg((st, 'sim'), simulate,
-                              cfg_with_dev('Namespace_sim.cfg', devs[st], scratch, st),
-                              nsim, depth, run.seed + 1 + 7 * stores.index(st)))
-        for t in threads:
-            t.join()
+        devs = set(run.known.open)
+        run.notes['deviations_modelled'] = {st: sorted(devs & devs_for(st)) for st in stores}
+        # one TLC run per configuration: the store is chosen in Init (Stores of the cfg)
+        jobs = [('rfc', 'tlc', ('Namespace_rfc.cfg', 8))]
+        if md_stores:
+            jobs.append(('rfc-md', 'tlc', ('Namespace_oddrfc.cfg', 2)))
+        # (the big ones: dict and maildir in a run each, they are read side by side)
+        parts: dict = {}
+        for cfg, max_len, keep_fn, workers, timeout in \
+                [(c, n, keep_tour, 4, 1800) for c, n in tours] \
+                + [(MATCH[tier], 10 ** 6, keep_match, 8, 3000)]:
+            have = [st for st in cfg_stores(cfg) if st in stores]
+            groups = [have]
+            if cfg in SPLIT and 'dict' in have and len(have) > 1:
+                groups = [['dict'], [st for st in have if st != 'dict']]
+            parts[cfg] = []
+            for g in groups:
+                if g:
+                    key = (cfg, '+'.join(g))
+                    parts[cfg].append(key)
+                    jobs.append((key, 'graph', (cfg_with_dev(cfg, devs, scratch, g), max_len,
+                                                workers, timeout, keep_fn)))
+        nsim, depth = SIM[tier]
+        if 'dict' in stores:
+            jobs.append(('sim', 'sim', (cfg_with_dev('Namespace_sim.cfg', devs, scratch,
+                                                     ['dict']), nsim, depth, run.seed + 1)))
+        if md_stores:
+            # (the initial state, and with it the store, is drawn for every behaviour)
+            jobs.append(('sim-md', 'sim', (cfg_with_dev('Namespace_sim.cfg', devs, scratch,
+                                                        md_stores),
+                                           nsim if quick_md else 2 * nsim, depth, run.seed + 2)))
+        # longest first; each in a forked process (the closures above are inherited)
+        global _JOBS
+        _JOBS = {key: (kind, args) for key, kind, args in jobs}
+        import multiprocessing
+        ctx = multiprocessing.get_context('fork')
+        with ctx.Pool(len(jobs)) as pool:
+            pending = {key: pool.apply_async(_run_job, (key,)) for key, _, _ in jobs}
+            for key, p in pending.items():
+                try:
+                    results[key] = p.get()
+                except Exception as exc:      # machinery
+                    results[key] = exc
     except tlc.TLCError as exc:
         run.machinery(str(exc))
         return run.finish()
@@ -946,14 +1051,29 @@ def main(tier: str) -> int:
         shutil.rmtree(scratch, ignore_errors=True)
     for key, val in results.items():
         if isinstance(val, Exception):
-            run.machinery(f'TLC on {key}: {val}')
+            run.machinery(f'TLC on {key}: {val!r}')
             return run.finish()
-    res = results['rfc']
-    run.add_model(res, 'Namespace_rfc.cfg')
-    if not res.ok:
-        run.machinery('the reference model fails its own sanity properties: '
-                      f'{res.violated or res.error}')
-        return run.finish()
+    for cfg, keys in parts.items():
+        # the runs of one configuration, put together
+        by, stats, gres = {}, {}, None
+        for key in keys:
+            b, st_, g = results.pop(key)
+            run.add_model(g, cfg + ('' if len(keys) == 1 else '@' + key[1]))
+            by.update(b)
+            for k, v in st_.items():
+                stats[k] = stats.get(k, 0) + v
+            if gres is None or not g.ok:
+                gres = g
+        results[cfg] = (by, stats, gres)
+    for key, cfg in (('rfc', 'Namespace_rfc.cfg'), ('rfc-md', 'Namespace_oddrfc.cfg')):
+        if key not in results:
+            continue
+        res = results[key]
+        run.add_model(res, cfg)
+        if not res.ok:
+            run.machinery(f'the reference model fails its own sanity properties ({cfg}): '
+                          f'{res.violated or res.error}')
+            return run.finish()
     run.notes['tlc_wall_s'] = round(time.time() - run.t0, 1)
 
     # ---- 2. behaviours -> executions ----------------------------------------
@@ -961,74 +1081,65 @@ def main(tier: str) -> int:
     ascii_concs = [c for c in CONCS if c.ascii_only]
     graphs = {}
     sliced = {}
-    nmatch = 'match:' + MATCH[tier]
-    for st in stores:
-        md = st != 'dict'
-        lab = '' if not md else '@' + st
-        off = run.seed + stores.index(st)
-        for cfg, max_len in tours_of(st):
-            graph, gres = results[(st, cfg)]
-            run.add_model(gres, cfg + lab)
-            if not gres.ok:
-                run.machinery(f'{cfg}{lab}: {gres.violated or gres.error}')
-                return run.finish()
-            paths = paths_of_graph(graph, max_len)
-            graphs[cfg + lab] = {'nodes': len(graph.nodes), 'edges': graph.n_edges,
-                                 'paths': len(paths),
-                                 'commands': sum(len(s) for _, s in paths)}
-            order = list(range(len(CONCS)))
-            rng.shuffle(order)
-            odd = (cfg, max_len) in ODD
+    for cfg, max_len in tours:
+        by, stats, gres = results[cfg]
+        if gres is None or not gres.ok:
+            run.machinery(f'{cfg}: {gres and (gres.violated or gres.error)}')
+            return run.finish()
+        graphs[cfg] = stats
+        order = list(range(len(CONCS)))
+        rng.shuffle(order)
+        odd = (cfg, max_len) in ODD
+        for st in stores:
+            npaths = stats.get('paths@' + st, 0)
             nplan = len(plan)
-            for k, (init, steps) in enumerate(paths):
-                if md and quick_md and len(paths) > 30 and (k + off) % MD_SLICE:
-                    continue
-                pool = ascii_concs if odd or has_newline(init, steps) else CONCS
-                reps = pool if (tier == 'thorough' and len(paths) < 400) else \
-                    [pool[order[k % len(order)] % len(pool)]]
+            for k, init, steps in by.get(st, []):
+                pool_ = ascii_concs if odd or has_newline(init, steps) else CONCS
+                reps = pool_ if (tier == 'thorough' and npaths < 400) else \
+                    [pool_[order[k % len(order)] % len(pool_)]]
                 for conc in reps:
                     plan.append(Execution('tour:' + cfg, conc, init, steps, store=st))
-            if md:
-                sliced['tour:' + cfg + lab] = f'{len(plan) - nplan} of {len(paths)} paths'
-        graph, gres = results[(st, MATCH[tier])]
-        run.add_model(gres, MATCH[tier] + lab)
-        if not gres.ok:
-            run.machinery(f'{MATCH[tier]}{lab}: {gres.violated or gres.error}')
-            return run.finish()
-        mpaths = paths_of_graph(graph, 10 ** 6)
-        graphs[MATCH[tier] + lab] = {'nodes': len(graph.nodes), 'edges': graph.n_edges,
-                                     'paths': len(mpaths),
-                                     'commands': sum(len(s) for _, s in mpaths)}
+            if st != 'dict' and npaths:
+                sliced[f'tour:{cfg}@{st}'] = f'{len(by.get(st, []))} of {npaths} paths'
+    by, stats, gres = results[MATCH[tier]]
+    if gres is None or not gres.ok:
+        run.machinery(f'{MATCH[tier]}: {gres and (gres.violated or gres.error)}')
+        return run.finish()
+    graphs[MATCH[tier]] = stats
+    for st in stores:
+        md = st != 'dict'
         nplan = len(plan)
-        for k, (init, steps) in enumerate(mpaths):
+        for k, init, steps in by.get(st, []):
             big = len(init['mbx']) > 8
             reps = ascii_concs if tier == 'thorough' or big \
                 else [ascii_concs[(k + run.seed) % len(ascii_concs)]]
             if tier == 'quick' and big:
                 reps = [ascii_concs[run.seed % len(ascii_concs)],
                         ascii_concs[(run.seed + 1) % len(ascii_concs)]]
-            if md and quick_md:
-                # the big name sets once, every MD_SLICE-th of the small ones
-                if big:
-                    reps = [ascii_concs[(k + off) % len(ascii_concs)]]
-                elif (k + off) % MD_SLICE:
-                    continue
+                if md:
+                    reps = [ascii_concs[(k + offs[st]) % len(ascii_concs)]]
             for conc in reps:
                 e = Execution(nmatch, conc, init, steps, probes=False, store=st)
                 e.nontrivial = any('/' in n for n in init['mbx'])
                 plan.append(e)
         if md:
-            sliced[nmatch + lab] = f'{len(plan) - nplan} executions of {len(mpaths)} name sets'
-        behs, sres = results[(st, 'sim')]
-        run.add_model(sres, 'Namespace_sim.cfg(simulate)' + lab)
+            sliced[f'{nmatch}@{st}'] = (f'{len(plan) - nplan} executions of '
+                                        f'{stats.get("paths@" + st, 0)} name sets')
+    for key in ('sim', 'sim-md'):
+        if key not in results:
+            continue
+        behs, sres = results[key]
+        run.add_model(sres, f'Namespace_sim.cfg(simulate{key[3:]})')
         if not behs:
             run.machinery('simulation produced no behaviour: '
                           + (sres.error or sres.output[-600:]))
             return run.finish()
         for k, (init, steps) in enumerate(behs):
-            plan.append(Execution('sim', ascii_concs[rng.randrange(len(ascii_concs))],
-                                  init, steps, store=st))
-        run.notes.setdefault('simulated_behaviours', {})[st] = len(behs)
+            if init['store'] in stores:
+                plan.append(Execution('sim', ascii_concs[rng.randrange(len(ascii_concs))],
+                                      init, steps, store=init['store']))
+                n = run.notes.setdefault('simulated_behaviours', {})
+                n[init['store']] = n.get(init['store'], 0) + 1
     run.notes['graphs'] = graphs
     if sliced:
         run.notes['maildir_slice'] = sliced
@@ -1063,28 +1174,18 @@ def main(tier: str) -> int:
     drifted = [e for e in plan if e.drift is not None]
     sample = [plan[i] for i in sorted(keep) if plan[i].drift is None]
     to_judge = drifted[:JUDGE_MAX] + sample
-    verd: dict = {}
-    jnotes = {}
-    jthreads = []
-    jres: dict = {}
-    for st in stores:
-        idx = [i for i, e in enumerate(to_judge) if e.store == st]
-        if idx:
-            jthreads.append((st, idx, bg(('judge', st), judge, [to_judge[i] for i in idx], st)))
-    for st, idx, t in jthreads:
-        t.join()
-        v = results[('judge', st)]
-        if isinstance(v, Exception):
-            run.machinery(f'judge ({st}): {v}')
-            return run.finish()
-        r = v.pop('_res', None)
-        for j, i in enumerate(idx):
-            verd[i] = v[j]
-        if r is not None:
-            jnotes[st] = {'traces': len(idx),
-                          'drifted': sum(1 for i in idx if to_judge[i].drift is not None),
-                          'wall_s': round(r.wall_s, 1), 'states': r.distinct}
-    run.notes['judge'] = jnotes
+    try:
+        verd = judge(to_judge)
+    except tlc.TLCError as exc:
+        run.machinery(str(exc))
+        return run.finish()
+    jres = verd.pop('_res', None)
+    if jres is not None:
+        run.notes['judge'] = {'traces': len(to_judge), 'drifted': len(drifted),
+                              'drifted_by_store': {st: sum(1 for e in drifted if e.store == st)
+                                                   for st in stores},
+                              'wall_s': round(jres.wall_s, 1),
+                              'states': jres.distinct}
     for i, e in enumerate(to_judge):
         reached, length, used = verd[i]
         if e.drift is None:
@@ -1119,6 +1220,9 @@ def main(tier: str) -> int:
             by_dev.setdefault(dv, []).append((len(e.cmds), e.conc.name, k, e))
         run.count_exec((e.store, e.conc.name, e.kind, e.cmds), nontrivial=e.nontrivial,
                        validated=e.drift is None or e in to_judge)
+    run.notes['deviations_seen'] = {
+        st: {dv: sum(1 for x in lst if x[3].store == st) for dv, lst in sorted(by_dev.items())
+             if any(x[3].store == st for x in lst)} for st in stores}
     for dv, lst in sorted(by_dev.items()):
         lst.sort(key=lambda x: x[:3])
         for n, (_l, _c, k, e) in enumerate(lst):
@@ -1182,7 +1286,7 @@ def replay(path: str) -> int:
                     print('   S:', ln)
     finally:
         d.close()
-    verd = judge([e], e.store)
+    verd = judge([e])
     reached, length, used = verd[0]
     if reached < length or used is None:
         print(f'VIOLATION property={PROP} replay={path}')
